@@ -382,7 +382,7 @@ impl Block {
     /// Compute the transaction root using a binary Merkle tree.
     ///
     /// Hashes each transaction to form leaves, then recursively combines pairs
-    /// with SHA-256. Odd leaves are duplicated for the final pair.
+    /// with SHA-256. An unpaired node is promoted to the next level unchanged.
     #[must_use]
     pub fn compute_tx_root(&self) -> BlockHash {
         if self.transactions.is_empty() {
@@ -486,14 +486,15 @@ fn merkle_root(leaves: &[[u8; 32]]) -> [u8; 32] {
         let mut next_level = Vec::with_capacity(level.len().div_ceil(2));
 
         for chunk in level.chunks(2) {
+            if chunk.len() == 1 {
+                // Odd node out: promote it unchanged. Pairing it with itself would give
+                // [a, b, c] and [a, b, c, c] the same root.
+                next_level.push(chunk[0]);
+                continue;
+            }
             let mut hasher = Sha256::new();
             hasher.update(chunk[0]);
-            if chunk.len() > 1 {
-                hasher.update(chunk[1]);
-            } else {
-                // Odd number of leaves - duplicate the last one
-                hasher.update(chunk[0]);
-            }
+            hasher.update(chunk[1]);
             next_level.push(hasher.finalize().into());
         }
 
